@@ -59,8 +59,9 @@ type FuncContract struct {
 // SinkDecl: every string parameter of every method of the receiver type must satisfy the predicate;
 // string results satisfy it (assumed contract of the library that renders the text).
 type SinkDecl struct {
-	Recv  string
-	Pred  string
+	Recv     string
+	Pred     string
+	Rendered string // weaker predicate of text rendered by the sink itself ("" = same as Pred)
 	Props []string
 	File  string
 	Line  int
@@ -437,6 +438,11 @@ func (cs *ContractSet) parseLines(fname string, lines []struct {
 			rest = stripComment(rest)
 			w1, r1 := splitWord(rest)
 			sd := &SinkDecl{Recv: w1, Pred: strings.TrimSpace(r1), File: fname, Line: l.line}
+			if f := strings.Fields(sd.Pred); len(f) == 3 && f[1] == "rendered" {
+				// sinks <recv> P rendered Q: text the sink renders itself (String()) only satisfies Q; a text parameter must
+				// satisfy P when bound arguments accompany it (it is interpolated again), Q otherwise
+				sd.Pred, sd.Rendered = f[0], f[2]
+			}
 			if len(full) > len(rest) {
 				sd.Props = rePropID.FindAllString(full[len(rest):], -1)
 			}
